@@ -386,11 +386,13 @@ impl VolatileState {
                     user == old(self).users@[nk],
                     chans == user.channels@,
                     state_wf(*old(self)),
-                    self.users@ == old(self).users@.remove(nk),
-                    self.wallops_users@ == old(self).wallops_users@.remove(nk),
+                    // the loop only touches the channels: everything else is as it was when the loop started (independent of the order of
+                    // the statements before it)
+                    self.users@ == mid.users@, mid.users@ == old(self).users@.remove(nk),
+                    self.wallops_users@ == mid.wallops_users@,
                     self.invisible_users_count == mid.invisible_users_count && self.operators_count == mid.operators_count
-                        && self.max_users_count == old(self).max_users_count && self.nick_histories == old(self).nick_histories
-                        && self.quit_sender == old(self).quit_sender && self.quit_receiver == old(self).quit_receiver,
+                        && self.max_users_count == mid.max_users_count && self.nick_histories == mid.nick_histories
+                        && self.quit_sender == mid.quit_sender && self.quit_receiver == mid.quit_receiver,
                     it.seq().no_duplicates(),
                     it.seq().len() == chans.len(),
                     forall|k: String| chans.contains(k) ==> exists|i: int| 0 <= i < it.seq().len() && *#[trigger] it.seq()[i] == k,
